@@ -289,6 +289,58 @@ def _fun_events(rec, bv, Bv, ctxv, forms, full, tags):
     return events
 
 
+def _tfun_events(rec, bv, Bv, acc_v, ctxv, tags):
+    """a Functional whose integrand returns a TENSOR per quadrature point (rank 1..3; components = grammar terms on the
+    interpolated functions u_h, v_h and the fields), through assemble, asm and elemental; every entry is judged as the
+    scalar functional of its component and against v^T A u of the component's bilinear form"""
+    from skfem import BilinearForm, Functional, asm
+    tf = rec['tfun']
+    kw, facc, fs, defpi = ctxv
+    accs = {'u': acc_v, 'v': acc_v, 'f': facc}
+    prm = {k: int(v) for k, v in rec.get('params', {}).items()}
+    shape = tuple(tf['shape'])
+    nel, nq = Bv['nel'], Bv['nq']
+    fenv = _fenv(rec['fields_v'], kw, defpi)
+
+    def tensor(w):
+        vals = [np.asarray(fem.ev_term(t, w['uh'], w['vh'], w, accs)) + np.asarray(w['z0']) for t in tf['comps']]
+        return np.array(vals).reshape(shape + (nel, nq))
+    fun = Functional(tensor)
+    u, v = np.array(tf['u'], dtype=np.float64), np.array(tf['v'], dtype=np.float64)
+
+    def run():
+        kws = dict(kw, uh=bv.interpolate(u), vh=bv.interpolate(v), z0=np.zeros((nel, nq)), **prm)
+        out = {'T': fun.assemble(bv, **dict(kws)), 'Ta': asm(fun, bv, **dict(kws)), 'El': fun.elemental(bv, **dict(kws)), 'A': []}
+        for t, ha in zip(tf['comps'], tf['hasA']):
+            out['A'].append(BilinearForm(fem.bilinear_callable(t, accs, len(bv.basis[0]))).assemble(bv, **dict(kw), **prm)
+                            if ha else None)
+        return out
+    out, err = guarded(run, 60)
+    ev = {'a': 'TFun', 'err': err, 'B': Bv, 'env': {'fld': fenv, 'prm': prm}, 'u': [int(x) for x in tf['u']],
+          'v': [int(x) for x in tf['v']], 'shape': [int(d) for d in shape], 'gshape': [], 'gashape': [], 'gelshape': [],
+          'comps': [], 'exact': 1, 'tags': dict(tags)}
+    if not err:
+        T, Ta, El = np.asarray(out['T']), np.asarray(out['Ta']), np.asarray(out['El'])
+        ev.update(gshape=[int(d) for d in T.shape], gashape=[int(d) for d in Ta.shape], gelshape=[int(d) for d in El.shape])
+        ok = True
+        if T.shape == shape and Ta.shape == shape and El.shape == shape + (nel,):
+            for c, (t, ha) in enumerate(zip(tf['comps'], tf['hasA'])):
+                idx = np.unravel_index(c, shape)
+                S = fem.term_scale(t, Bv['sphi'], Bv['sphi'], fs) * Bv['sdx']
+                s_, sa, el = _ints(T[idx], S), _ints(Ta[idx], S), _ints(El[idx], S)
+                ok &= s_ is not None and sa is not None and el is not None
+                cev = {'F': t, 'S': int(S), 's': int(s_ or 0), 'sa': int(sa or 0), 'el': el or [], 'hasA': 0,
+                       'A': {'shape': [0, 0], 'trip': []}}
+                if ha:
+                    trip, o = fem.csr_trip(out['A'][c], S)
+                    ok &= o
+                    fem.guard_sum([x[2] for x in trip], max(map(abs, tf['u']), default=0) * max(map(abs, tf['v']), default=0))
+                    cev.update(hasA=1, A={'shape': [int(d) for d in out['A'][c].shape], 'trip': trip})
+                ev['comps'].append(cev)
+        ev['exact'] = 1 if ok else 0
+    return [ev]
+
+
 def _on_bases(rec, mesh, kind, attrs, bus, bvs, forms, first):
     """all observations on one (trial, test) pair of basis objects; `forms` carries the form objects over to the
     next pair of bases (object reuse)"""
@@ -321,6 +373,8 @@ def _on_bases(rec, mesh, kind, attrs, bus, bvs, forms, first):
                 events += _lin_events(rec, bv, Bv, acc_v, ctxv, forms, full, tags)
             if rec.get('fun'):
                 events += _fun_events(rec, bv, Bv, ctxv, forms, full, tags)
+            if rec.get('tfun') and full:
+                events += _tfun_events(rec, bv, Bv, acc_v, ctxv, tags)
 
     # ---------------- interpolate
     if first:
@@ -525,10 +579,17 @@ def gen_exact(rng, tier):
         if rng.integers(0, 2):
             fl.append({'name': 'g', 'kind': 'val', 'val': [[int(x) for x in row] for row in rng.integers(-2, 4, size=(nel, nqq))]})
             avail.append(('g', 1))
-        if rng.integers(0, 2):
+        # a caller's field whose NAME collides with a default of the basis (h=, x=, n=) replaces that default, in all
+        # three form types alike
+        ov = None
+        if rng.integers(0, 4) == 0:
+            ov = str(rng.choice(['h', 'x'] + (['n'] if bs['type'] != 'cell' else [])))
+            fl.append({'name': ov, 'kind': 'val', 'val': [[int(x) for x in row] for row in rng.integers(-2, 4, size=(nel, nqq))]})
+            avail.append((ov, 1))
+        if ov != 'x' and rng.integers(0, 2):
             fl.append({'name': 'x', 'kind': 'default'})
             avail.append(('x', mesh.dim()))
-        if bs['type'] != 'cell' and rng.integers(0, 2):
+        if ov != 'n' and bs['type'] != 'cell' and rng.integers(0, 2):
             fl.append({'name': 'n', 'kind': 'default'})
             avail.append(('n', mesh.dim()))
         return fl, avail
@@ -557,6 +618,19 @@ def gen_exact(rng, tier):
     rec['fun'] = fem.gen_functional(rng, av_v, ['alpha'])
     if rng.integers(0, 4) == 0:
         rec['fun_im'] = fem.gen_functional(rng, av_v, ['alpha'], nsum=1)
+    if bv.Nbfun ** 2 * nel * nqq <= 1200 and rng.integers(0, 3) == 0:
+        # tensor-valued functional of rank 1..3 (x, x (x) x, grad u (x) grad v, n (x) n u v ... as grammar terms)
+        tshape = [[2], [3], [2, 2], [2, 2], [2, 3], [2, 2, 2]][int(rng.integers(0, 6))]
+        ncomp_t = int(np.prod(tshape))
+        comps_t, hasA = [], []
+        for _ in range(ncomp_t):
+            if rng.integers(0, 2):
+                comps_t.append(fem.gen_bilinear(rng, ncv, ncv, av_v, ['alpha'], nsum=int(rng.integers(1, 3))))
+                hasA.append(int(rng.integers(0, 2)))
+            else:
+                comps_t.append(fem.gen_functional(rng, av_v, ['alpha'], nsum=int(rng.integers(1, 3))))
+                hasA.append(0)
+        rec['tfun'] = {'shape': tshape, 'comps': comps_t, 'hasA': hasA, 'u': _small_vec(rng, bv.N), 'v': _small_vec(rng, bv.N)}
     rec['elemental'] = int(work <= 1500 and rng.integers(0, 2) == 1)
     npair = 2 if work <= 2000 else 1
     rec['pairs'] = [[_small_vec(rng, bu.N), _small_vec(rng, bv.N)] for _ in range(npair)]
@@ -586,7 +660,7 @@ def gen_exact(rng, tier):
     rec['interp_v'] = [{'re': _small_vec(rng, bv.N, -2, 3), 'im': _small_vec(rng, bv.N, -2, 3)}] if rng.integers(0, 3) == 0 else []
     tags = {'kind': kind, 'btype': btype, 'oriented': int('ori' in bs), 'eu': fem.elem_name(eu), 'ev': fem.elem_name(ev), 'tier': 'exact',
             'rect': int(eu != ev), 'grad': grad, 'complex': int('bil_im' in rec or 'lin_im' in rec or 'fun_im' in rec),
-            'sidepair': int(bool(sidepair)), 'hist': len(rec['hist_u']) + len(rec['hist_v']), 'reuse': int('bu2' in rec)}
+            'sidepair': int(bool(sidepair)), 'hist': len(rec['hist_u']) + len(rec['hist_v']), 'reuse': int('bu2' in rec), 'tfun': int('tfun' in rec)}
     return rec, tags
 
 
